@@ -2,6 +2,19 @@ import Tmv.Lemmas.BlockStorePrune
 /-! Helper lemmas about `saveBlock` / `pruneBlocks` / `auditFrom` used by Props/C18. -/
 namespace Tmv.BlockStore
 
+/-- what consensus guarantees about the arguments of `SaveBlock` (the store checks none of it):
+positive height, at least one part, the seen commit is for this block, the block's `LastCommit` is
+for the stored previous block, and the block's hash is not the hash of a stored block (implied by
+collision-freedom, since the height is hashed). -/
+structure ValidNext (db : DB) (b : Block) (sc : Commit) : Prop where
+  pos : 0 < b.height
+  parts : 0 < b.total
+  seen : sc = { height := b.height, blockHash := b.hash }
+  last : ∀ m, 0 < (loadRange db).2 → loadMeta db (loadRange db).2 = some m →
+    b.lastCommit = { height := (loadRange db).2, blockHash := m.hash }
+  fresh : ∀ h m, (loadRange db).1 ≤ h → h ≤ (loadRange db).2 → loadMeta db h = some m → m.hash ≠ b.hash
+
+
 /-- the writes of `SaveBlock` before the range descriptor -/
 def savePre (b : Block) (sc : Commit) : List Write :=
   (List.range b.total).map (fun i => Write.set (.part b.height i) (.part b i)) ++
@@ -127,5 +140,337 @@ theorem auditFrom_none_iff (db : DB) (H : Int) (fuel : Nat) (h : Int) :
       · intro hall a h1 h2
         exact hall a (by omega) (by omega)
 
+
+/-- during `SaveBlock` the persisted range is the old one until the last write -/
+theorem save_prefix_range (db : DB) (s s' : Store) (b : Block) (sc : Commit) (units : List (List Write))
+    (hs : saveBlock s b true sc = .ok (s', units)) (k : Nat) :
+    loadRange (applyAll db (units.flatten.take k)) = loadRange db ∨
+    applyAll db (units.flatten.take k) = applyAll db units.flatten := by
+  obtain ⟨_, _, hu⟩ := saveBlock_units _ _ _ _ _ hs
+  rw [hu]
+  by_cases hk : k ≤ (savePre b sc).length
+  · left
+    rw [List.take_append_of_le_length hk]
+    apply loadRange_applyAll_of_not_mem
+    intro w hw
+    have hw := List.mem_of_mem_take hw
+    simp only [savePre, List.mem_append, List.mem_map, List.mem_range, List.mem_cons, List.mem_nil_iff,
+      or_false] at hw
+    rcases hw with ⟨i, _, rfl⟩ | rfl | rfl | rfl | rfl <;> simp [Write.key]
+  · right
+    rw [List.take_of_length_le (by simp; omega)]
+
+/-- the shapes of the writes of `PruneBlocks`: deletes of non-descriptor keys, and descriptor
+writes that only move the base, within `[lo, retain]` -/
+def PShape (H lo retain : Int) (w : Write) : Prop :=
+  (∃ k, k ≠ Key.bsState ∧ (∀ a, retain ≤ a → k ≠ .bmeta a) ∧ w = .del k) ∨
+  (∃ b', lo ≤ b' ∧ b' ≤ retain ∧ w = .set .bsState (.range b' H))
+
+theorem pruneLoop_pshape (H retain : Int) :
+    ∀ (fuel : Nat) (h : Int) (db : DB) (batch : List Write) (pruned : Nat),
+      h + fuel = retain → (∀ w ∈ batch, ∃ k, k ≠ Key.bsState ∧ (∀ a, retain ≤ a → k ≠ .bmeta a) ∧ w = .del k) →
+      ∀ w ∈ (pruneLoop H retain fuel h db batch pruned).2.flatten, PShape H h retain w := by
+  intro fuel
+  induction fuel with
+  | zero =>
+    intro h db batch pruned hf hb w hw
+    rw [pruneLoop_zero] at hw
+    simp only [List.flatten_cons, List.flatten_nil, List.append_nil, List.mem_append, List.mem_cons,
+      List.mem_nil_iff, or_false] at hw
+    rcases hw with rfl | hw
+    · exact Or.inr ⟨retain, by omega, Int.le_refl _, rfl⟩
+    · exact Or.inl (hb w hw)
+  | succ fuel ih =>
+    intro h db batch pruned hf hb
+    have weaken : ∀ w, PShape H (h + 1) retain w → PShape H h retain w := by
+      rintro w (e | ⟨b', h1, h2, e⟩)
+      · exact Or.inl e
+      · exact Or.inr ⟨b', by omega, h2, e⟩
+    have hf' : h + 1 + (fuel : Int) = retain := by omega
+    cases hm : loadMeta db h with
+    | none =>
+      have : pruneLoop H retain (fuel + 1) h db batch pruned = pruneLoop H retain fuel (h + 1) db batch pruned := by
+        simp only [pruneLoop, hm]
+      rw [this]
+      exact fun w hw => weaken w (ih (h + 1) db batch pruned hf' hb w hw)
+    | some m =>
+      have hb' : ∀ w ∈ batch ++ deletesFor h m, ∃ k, k ≠ Key.bsState ∧ (∀ a, retain ≤ a → k ≠ .bmeta a) ∧ w = .del k := by
+        intro w hw
+        rcases List.mem_append.1 hw with e | e
+        · exact hb w e
+        · rw [mem_deletesFor] at e
+          rcases e with rfl | rfl | rfl | rfl | ⟨p, _, rfl⟩
+          · exact ⟨.bmeta h, (by simp), (fun a ha e => by injection e; omega), rfl⟩
+          · exact ⟨.hashIdx m.hash, (by simp), (fun a _ e => by cases e), rfl⟩
+          · exact ⟨.commit h, (by simp), (fun a _ e => by cases e), rfl⟩
+          · exact ⟨.seen h, (by simp), (fun a _ e => by cases e), rfl⟩
+          · exact ⟨.part h p, (by simp), (fun a _ e => by cases e), rfl⟩
+      by_cases hfl : (pruned + 1) % batchSize = 0
+      · rw [pruneLoop_succ_flush H retain h fuel db batch pruned m hm hfl]
+        intro w hw
+        simp only [List.flatten_cons, List.mem_append, List.mem_cons, List.mem_nil_iff, or_false] at hw
+        rcases hw with rfl | hw | hw
+        · exact Or.inr ⟨h + 1, by omega, by omega, rfl⟩
+        · exact Or.inl (hb' w (List.mem_append.2 hw))
+        · exact weaken w (ih (h + 1) _ [] (pruned + 1) hf' (fun w hw => by cases hw) w hw)
+      · rw [pruneLoop_succ_keep H retain h fuel db batch pruned m hm hfl]
+        exact fun w hw => weaken w (ih (h + 1) db _ (pruned + 1) hf' hb' w hw)
+
+/-- any prefix of writes of those shapes leaves the height alone and the base within bounds -/
+theorem pshape_prefix_range (H lo retain B : Int) (hB : 0 < B) (hBlo : B ≤ lo) :
+    ∀ (ws : List Write) (db : DB), (∀ w ∈ ws, PShape H lo retain w) →
+      (∃ b', loadRange db = (b', H) ∧ B ≤ b' ∧ b' ≤ retain) →
+      ∃ b', loadRange (applyAll db ws) = (b', H) ∧ B ≤ b' ∧ b' ≤ retain := by
+  intro ws
+  induction ws with
+  | nil => intro db _ h; exact h
+  | cons w ws ih =>
+    intro db hws h
+    rw [applyAll_cons]
+    apply ih _ (fun w' hw' => hws w' (List.mem_cons_of_mem _ hw'))
+    rcases hws w List.mem_cons_self with ⟨k, hk, _, rfl⟩ | ⟨b', h1, h2, rfl⟩
+    · rw [loadRange_apply_of_ne _ _ (by simpa [Write.key] using hk)]; exact h
+    · exact ⟨b', loadRange_set _ _ _ (by omega), by omega, h2⟩
+
+theorem save_crash_core (db : DB) (b : Block) (sc : Commit) (s' : Store)
+    (units : List (List Write)) (hG : Good db) (hv : ValidNext db b sc)
+    (hs : saveBlock (openStore db) b true sc = .ok (s', units)) :
+    AllPrefixGood db units.flatten ∧ (∀ k, Good (afterUnits db units k)) ∧
+    loadRange (applyAll db units.flatten) =
+      ((if (loadRange db).1 = 0 then b.height else (loadRange db).1), b.height) ∧
+    s' = openStore (applyAll db units.flatten) := by
+  obtain ⟨hguard, hs', hunits⟩ := saveBlock_units _ _ _ _ _ hs
+  simp only [openStore] at hguard hs'
+  obtain ⟨B, hB⟩ : ∃ B, (loadRange db).1 = B := ⟨_, rfl⟩
+  obtain ⟨H, hH⟩ : ∃ H, (loadRange db).2 = H := ⟨_, rfl⟩
+  rw [hB, hH] at hguard
+  simp only [hB] at hs'
+  simp only [hB]
+  have hpos := hv.pos
+  -- the new base and the descriptor write
+  have hbase' : s'.base = (if B = 0 then b.height else B) := by rw [hs']
+  have hheight' : s'.height = b.height := by rw [hs']
+  rw [hunits, hbase', hheight']
+  have hGood := (good_iff db).1 hG
+  rw [hB, hH] at hGood
+  -- the database before the descriptor write
+  have hr1 : loadRange (applyAll db (savePre b sc)) = loadRange db := by
+    apply loadRange_applyAll_of_not_mem
+    intro w hw
+    simp only [savePre, List.mem_append, List.mem_map, List.mem_range, List.mem_cons, List.mem_nil_iff,
+      or_false] at hw
+    rcases hw with ⟨i, _, rfl⟩ | rfl | rfl | rfl | rfl <;> simp [Write.key]
+  obtain ⟨gparts, gmeta, gidx, gcommit, gseen⟩ := savePre_gets db b sc
+  -- the new tip passes the audit in the final database
+  have hfinalTip : ∀ B', checkAt (apply (applyAll db (savePre b sc)) (.set .bsState (.range B' b.height)))
+      b.height b.height = none := by
+    intro B'
+    rw [checkAt_none_iff]
+    refine ⟨{ height := b.height, hash := b.hash, total := b.total }, b, sc, ?_⟩
+    have hg : ∀ k, k ≠ Key.bsState →
+        get (apply (applyAll db (savePre b sc)) (.set .bsState (.range B' b.height))) k
+          = get (applyAll db (savePre b sc)) k := fun k hk => get_apply_of_ne _ _ _ (by simpa [Write.key] using hk.symm)
+    have hgm := hg (.bmeta b.height) (by simp)
+    have hgp := fun i => hg (.part b.height i) (by simp)
+    have hgi := hg (.hashIdx b.hash) (by simp)
+    have hgs := hg (.seen b.height) (by simp)
+    have hm : loadMeta (apply (applyAll db (savePre b sc)) (.set .bsState (.range B' b.height))) b.height
+        = some { height := b.height, hash := b.hash, total := b.total } := by
+      simp only [loadMeta, hgm, gmeta]
+    refine ⟨hm, rfl, ?_, rfl, rfl, rfl, ?_, ?_, ?_, ?_⟩
+    · simp only [loadBlock, hm, hgp, gparts 0 hv.parts]
+      have : (List.range b.total).all (partIs (apply (applyAll db (savePre b sc))
+          (.set .bsState (.range B' b.height))) b.height b) = true := by
+        simp only [List.all_eq_true, List.mem_range, partIs, beq_iff_eq]
+        intro i hi
+        rw [hgp, gparts i hi]
+      simp [this]
+    · simp only [loadHeightByHash, hgi, gidx]
+    · simp only [Int.lt_irrefl, if_false, loadSeen, hgs, gseen]
+    · rw [hv.seen]
+    · rw [hv.seen]
+  rcases hGood with ⟨hB0, hH0⟩ | ⟨hBpos, hBH, hGF⟩
+  · -- empty store: nothing is in range until the descriptor is written
+    subst hB0; subst hH0
+    have hpre : AllPrefixGood db (savePre b sc) := by
+      intro k
+      have hr : loadRange (applyAll db ((savePre b sc).take k)) = loadRange db := by
+        apply loadRange_applyAll_of_not_mem
+        intro w hw
+        have hw := List.mem_of_mem_take hw
+        simp only [savePre, List.mem_append, List.mem_map, List.mem_range, List.mem_cons,
+          List.mem_nil_iff, or_false] at hw
+        rcases hw with ⟨i, _, rfl⟩ | rfl | rfl | rfl | rfl <;> simp [Write.key]
+      rw [good_iff, hr, hB, hH]; exact Or.inl ⟨rfl, rfl⟩
+    have hrf : loadRange (applyAll db (savePre b sc ++ [.set .bsState (.range b.height b.height)]))
+        = (b.height, b.height) := by
+      rw [applyAll_append, applyAll_cons, applyAll_nil, loadRange_set _ _ _ (by omega)]
+    have hfinal : Good (applyAll db (savePre b sc ++ [.set .bsState (.range b.height b.height)])) := by
+      rw [good_iff, hrf]
+      refine Or.inr ⟨hpos, Int.le_refl _, ?_⟩
+      intro h h1 h2
+      have : h = b.height := by simp only at h1 h2; omega
+      subst this
+      rw [applyAll_append, applyAll_cons, applyAll_nil]
+      exact hfinalTip _
+    have hall : AllPrefixGood db (savePre b sc ++ [.set .bsState (.range b.height b.height)]) := by
+      apply allPrefixGood_append _ _ _ hpre
+      intro k
+      cases k with
+      | zero => simpa [applyAll_nil] using allPrefixGood_last _ _ hpre
+      | succ k =>
+        simp only [List.take_succ_cons, List.take_nil, ← applyAll_append]
+        exact hfinal
+    simp only [if_true]
+    refine ⟨hall, good_afterUnits db units (hunits ▸ ?_), hrf, ?_⟩
+    · rw [hbase', hheight']; simpa using hall
+    · rw [hs']; simp [openStore, hrf]
+  · -- non-empty store: the block is the next height
+    have hn : b.height = H + 1 := by
+      by_cases h : b.height = H + 1
+      · exact h
+      · exact absurd ⟨hBpos, h⟩ hguard
+    have hBne : B ≠ 0 := by omega
+    simp only [hBne, if_false]
+    have hun : ∀ w ∈ savePre b sc, Unused db (loadRange db).1 (loadRange db).2 w := by
+      rw [hB, hH]
+      exact savePre_unused db b sc B H hn (fun h m h1 h2 hm => hv.fresh h m (hB ▸ h1) (hH ▸ h2) hm)
+    have hpre : AllPrefixGood db (savePre b sc) := allPrefixGood_unused db _ hG hun
+    have hrf : loadRange (applyAll db (savePre b sc ++ [.set .bsState (.range B b.height)]))
+        = (B, b.height) := by
+      rw [applyAll_append, applyAll_cons, applyAll_nil, loadRange_set _ _ _ (by omega)]
+    have hfinal : Good (applyAll db (savePre b sc ++ [.set .bsState (.range B b.height)])) := by
+      rw [good_iff, hrf]
+      refine Or.inr ⟨hBpos, by simp only; omega, ?_⟩
+      intro h h1 h2
+      simp only at h1 h2
+      rw [applyAll_append, applyAll_cons, applyAll_nil]
+      by_cases htip : h = b.height
+      · subst htip; exact hfinalTip _
+      · have hhH : h ≤ H := by omega
+        have hold := hGF h h1 hhH
+        -- keys of the old heights are untouched
+        have hkeys : ∀ k, usedAt db H h k → k ≠ .commit H →
+            get (apply (applyAll db (savePre b sc)) (.set .bsState (.range B b.height))) k = get db k := by
+          intro k hk hkc
+          have hkb : k ≠ .bsState := by
+            rintro rfl
+            rcases hk with e1 | ⟨i, e1⟩ | ⟨_, e1⟩ | ⟨_, e1⟩ | ⟨m, _, e1⟩ <;> cases e1
+          rw [get_apply_of_ne _ _ _ (by simpa [Write.key] using hkb.symm)]
+          apply get_savePre_other
+          · intro i e; subst e
+            rcases hk with e1 | ⟨i', e1⟩ | ⟨_, e1⟩ | ⟨_, e1⟩ | ⟨m, _, e1⟩ <;>
+              first | (injection e1; omega) | cases e1
+          · intro e; subst e
+            rcases hk with e1 | ⟨i', e1⟩ | ⟨_, e1⟩ | ⟨_, e1⟩ | ⟨m, _, e1⟩ <;>
+              first | (injection e1; omega) | cases e1
+          · intro e; subst e
+            rcases hk with e1 | ⟨i', e1⟩ | ⟨_, e1⟩ | ⟨_, e1⟩ | ⟨m, hm, e1⟩ <;>
+              first | (injection e1 with e1; exact hv.fresh h m (hB ▸ h1) (hH ▸ hhH) hm e1.symm) | cases e1
+          · rw [hn]; intro e; apply hkc; rw [e]; congr 1; omega
+          · intro e; subst e
+            rcases hk with e1 | ⟨i', e1⟩ | ⟨_, e1⟩ | ⟨_, e1⟩ | ⟨m, _, e1⟩ <;>
+              first | (injection e1; omega) | cases e1
+        by_cases hlt : h < H
+        · -- strictly below the old tip: same branch, same keys
+          rw [checkAt_below_tip _ H b.height h hlt (by omega), ← hold]
+          apply checkAt_congr
+          intro k hk
+          apply hkeys k hk
+          rintro rfl
+          rcases hk with e1 | ⟨i', e1⟩ | ⟨hl, e1⟩ | ⟨_, e1⟩ | ⟨m, _, e1⟩ <;>
+            first | (injection e1; omega) | cases e1
+        · -- the old tip: its commit is now the new block's LastCommit
+          have hhe : h = H := by omega
+          subst hhe
+          obtain ⟨m, blk, c, ok⟩ := (checkAt_none_iff db h h).1 hold
+          rw [checkAt_none_iff]
+          refine ⟨m, blk, b.lastCommit, ?_⟩
+          have hmeta : loadMeta (apply (applyAll db (savePre b sc)) (.set .bsState (.range B b.height))) h
+              = loadMeta db h := by
+            simp only [loadMeta, hkeys _ (Or.inl rfl) (by simp)]
+          have hlast := hv.last m (by rw [hH]; omega) (by rw [hH]; exact ok.hmeta)
+          rw [hH] at hlast
+          refine ⟨hmeta.trans ok.hmeta, ok.metaHeight, ?_, ok.blockHash, ok.blockHeight, ok.blockTotal, ?_, ?_, ?_, ?_⟩
+          · rw [← ok.block]
+            have hp : ∀ i, get (apply (applyAll db (savePre b sc)) (.set .bsState (.range B b.height)))
+                (.part h i) = get db (.part h i) := fun i => hkeys _ (Or.inr (Or.inl ⟨i, rfl⟩)) (by simp)
+            have hpis : ∀ b', partIs (apply (applyAll db (savePre b sc)) (.set .bsState (.range B b.height))) h b'
+                = partIs db h b' := by intro b'; funext i; simp only [partIs, hp]
+            simp only [loadBlock, hmeta, hp, hpis]
+          · rw [← ok.hashIdx]
+            simp only [loadHeightByHash,
+              hkeys _ (Or.inr (Or.inr (Or.inr (Or.inr ⟨m, ok.hmeta, rfl⟩)))) (by simp)]
+          · have : h < b.height := by omega
+            simp only [this, if_true, loadCommit]
+            rw [get_apply_of_ne _ _ _ (by simp [Write.key])]
+            have := gcommit
+            rw [hn] at this
+            have e : h + 1 - 1 = h := by omega
+            rw [e] at this
+            rw [this]
+          · rw [hlast]
+          · rw [hlast]
+    have hall : AllPrefixGood db (savePre b sc ++ [.set .bsState (.range B b.height)]) := by
+      apply allPrefixGood_append _ _ _ hpre
+      intro k
+      cases k with
+      | zero => simpa [applyAll_nil] using allPrefixGood_last _ _ hpre
+      | succ k =>
+        simp only [List.take_succ_cons, List.take_nil, ← applyAll_append]
+        exact hfinal
+    refine ⟨hall, good_afterUnits db units (hunits ▸ ?_), hrf, ?_⟩
+    · rw [hbase', hheight']; simpa [hBne] using hall
+    · rw [hs']; simp [openStore, hrf, hBne]
+
+theorem prune_crash_core (db : DB) (retain : Int) (s' : Store) (n : Nat)
+    (units : List (List Write)) (hG : Good db)
+    (hp : pruneBlocks (openStore db) db retain = .ok (s', n, units)) :
+    AllPrefixGood db units.flatten ∧ ∀ k, Good (afterUnits db units k) := by
+  obtain ⟨B, H, hr, hB, hBr, hrH, hGF, _, _, hu⟩ := prune_setup db retain s' n units hG hp
+  have hspec := pruneLoop_spec H retain (retain - B).toNat B db [] 0 B (by omega) hrH hr hB
+    (Int.le_refl _) hGF (fun w hw => by cases hw) (fun w hw => by cases hw)
+  rw [← hu] at hspec
+  exact ⟨hspec.1, good_afterUnits db units hspec.1⟩
+
+/-- … and leaves the metas of the retained heights alone -/
+theorem pshape_prefix_meta (H lo retain : Int) (ws : List Write) (db : DB)
+    (hws : ∀ w ∈ ws, PShape H lo retain w) (a : Int) (ha : retain ≤ a) :
+    loadMeta (applyAll db ws) a = loadMeta db a := by
+  have : get (applyAll db ws) (.bmeta a) = get db (.bmeta a) := by
+    apply get_applyAll_of_not_mem
+    intro w hw
+    rcases hws w hw with ⟨k, _, hk, rfl⟩ | ⟨b', _, _, rfl⟩
+    · exact hk a ha
+    · simp [Write.key]
+  simp only [loadMeta, this]
+
+/-- `SaveBlock` writes no meta but the new block's -/
+theorem save_prefix_meta (db : DB) (s s' : Store) (b : Block) (sc : Commit) (units : List (List Write))
+    (hs : saveBlock s b true sc = .ok (s', units)) (k : Nat) (a : Int) (ha : a ≠ b.height) :
+    loadMeta (applyAll db (units.flatten.take k)) a = loadMeta db a := by
+  obtain ⟨_, _, hu⟩ := saveBlock_units _ _ _ _ _ hs
+  have : get (applyAll db (units.flatten.take k)) (.bmeta a) = get db (.bmeta a) := by
+    apply get_applyAll_of_not_mem
+    intro w hw
+    have hw := List.mem_of_mem_take hw
+    rw [hu] at hw
+    simp only [savePre, List.mem_append, List.mem_map, List.mem_range, List.mem_cons, List.mem_nil_iff,
+      or_false] at hw
+    rcases hw with (⟨i, _, rfl⟩ | rfl | rfl | rfl | rfl) | rfl <;> simp [Write.key]
+    exact fun e => ha e.symm
+  simp only [loadMeta, this]
+
+/-- after `SaveBlock` the meta of the new height is the block's -/
+theorem save_final_meta (db : DB) (s s' : Store) (b : Block) (sc : Commit) (units : List (List Write))
+    (hs : saveBlock s b true sc = .ok (s', units)) :
+    loadMeta (applyAll db units.flatten) b.height =
+      some { height := b.height, hash := b.hash, total := b.total } := by
+  obtain ⟨_, _, hu⟩ := saveBlock_units _ _ _ _ _ hs
+  obtain ⟨_, gmeta, _⟩ := savePre_gets db b sc
+  rw [hu, applyAll_append, applyAll_cons, applyAll_nil]
+  have hg : get (apply (applyAll db (savePre b sc)) (.set .bsState (.range s'.base s'.height))) (.bmeta b.height)
+      = get (applyAll db (savePre b sc)) (.bmeta b.height) := get_apply_of_ne _ _ _ (by simp [Write.key])
+  simp only [loadMeta, hg, gmeta]
 
 end Tmv.BlockStore
